@@ -208,7 +208,7 @@ func c06One(w *c06World, p C06Probe, cacheOn bool, attempt int64) (f *kit.Findin
 			return nil, false, "relay"
 		}
 		// original presentation: served, then closed by us
-		c0, err := net.Dial("tcp", w.front.Addr)
+		c0, err := kit.DialTCP(w.front.Addr, 5*time.Second)
 		if err != nil {
 			if kit.EnvNetError(err) {
 				return nil, false, "relay"
@@ -224,7 +224,7 @@ func c06One(w *c06World, p C06Probe, cacheOn bool, attempt int64) (f *kit.Findin
 		tc.Close()
 	}
 	t0 := time.Now()
-	conn, err := net.Dial("tcp", w.front.Addr)
+	conn, err := kit.DialTCP(w.front.Addr, 5*time.Second)
 	if err != nil {
 		if kit.EnvNetError(err) {
 			return nil, false, "relay"
@@ -232,7 +232,7 @@ func c06One(w *c06World, p C06Probe, cacheOn bool, attempt int64) (f *kit.Findin
 		return kit.Violation("probe:dial-refused", "%v", err), false, class
 	}
 	defer conn.Close()
-	tc := conn.(*net.TCPConn)
+	tc := conn
 	if _, err := tc.Write(wire); err != nil {
 		return kit.Violation("probe:write-failed", "client write of %d probe bytes failed: %v (closed before the timeout?)", len(wire), err), false, class
 	}
